@@ -271,13 +271,13 @@ def view_ops(rnd, shape, origin, window, n_ops, wrapish):
     rank = len(shape)
     ops = []
     for _ in range(n_ops):
-        kind = rnd.choice(['inside', 'inside', 'inside', 'touch', 'cross', 'cross', 'whole', 'nooffset', 'wrap', 'wrap', 'hugecount', 'rank', 'zero', 'aread'])
+        kind = rnd.choice(['inside', 'inside', 'inside', 'touch', 'cross', 'cross', 'whole', 'nooffset', 'wrap', 'wrap', 'rank', 'zero', 'aread'])
         if kind == 'aread':
             ops.append('aread')
             continue
         cnt, off = [], []
         for w in window:
-            if kind in ('inside', 'wrap', 'hugecount', 'rank', 'zero', 'whole', 'nooffset'):
+            if kind in ('inside', 'wrap', 'rank', 'zero', 'whole', 'nooffset'):
                 o = rnd.randrange(0, w + 1)
                 c = rnd.randrange(0 if w == o else 1, w - o + 1) if w - o >= 1 else 0
             elif kind == 'touch':
@@ -300,11 +300,6 @@ def view_ops(rnd, shape, origin, window, n_ops, wrapish):
             back = rnd.choice([1, 1, 2, 3, origin[j] if origin[j] else 1])
             off[j] = U64 - back                      # offset near 2^64: offset + count wraps to a small number
             cnt[j] = back + rnd.randrange(0, window[j] + 1)
-        if kind == 'hugecount':
-            j = rnd.randrange(rank)
-            cnt[j] = U64 - rnd.choice([1, 2, off[j] if off[j] else 1])
-            if rnd.random() < 0.5:
-                off[j] = rnd.choice([1, 2, 3])
         if kind == 'zero':
             cnt[rnd.randrange(rank)] = 0
         ct = ' '.join(u(c) for c in cnt)
@@ -326,6 +321,21 @@ def view_ops(rnd, shape, origin, window, n_ops, wrapish):
         else:
             ops.append('vread %s ; %s' % (ct, ot))
     ops.append('aread')
+    # a count near 2^64 that slips through the wrapped window test makes HDF5 overrun the buffer (the driver
+    # dies): such a request is the LAST line of its case
+    if rnd.random() < 0.12 or wrapish:
+        cnt, off = [], []
+        for w in window:
+            o = rnd.randrange(0, w + 1)
+            off.append(o)
+            cnt.append(rnd.randrange(0, w - o + 1))
+        j = rnd.randrange(rank)
+        cnt[j] = U64 - rnd.choice([1, 2, off[j] if off[j] else 1])
+        if rnd.random() < 0.5:
+            off[j] = rnd.choice([1, 2, 3])
+        ops.append('%s %s ; %s%s' % (rnd.choice(['vread', 'vwrite']), ' '.join(u(c) for c in cnt), ' '.join(u(o) for o in off), ''))
+        if ops[-1].startswith('vwrite'):
+            ops[-1] += ' ; 100'
     return ops
 
 
@@ -362,7 +372,11 @@ def gen_views(rnd, n, out):
             else:
                 cw = cw[:-1]
         lines = [hdr, 'view %s ; %s' % (' '.join(u(c) for c in cw), ' '.join(u(o) for o in co)), 'vextent']
-        lines += view_ops(rnd, shape, origin, window, rnd.randrange(4, 10), ctor == 'wrap')
+        if ctor == 'wrap':
+            # the window must be refused; what a wrongly constructed view does afterwards is not judged, one probe only
+            lines.append('vread %s ; %s' % (' '.join('1' for _ in shape), ' '.join('0' for _ in shape)))
+        else:
+            lines += view_ops(rnd, shape, origin, window, rnd.randrange(4, 10), False)
         out.append(Case(lines, 'view-' + ('good' if ctor in ('good', 'edge') else 'badwindow')))
 
 
@@ -472,6 +486,13 @@ class C17(Prop):
                 return 'ERR h5'
         return line
 
+    def compare(self, a, b):
+        if b.startswith('UB'):
+            # the model predicts undefined behaviour: a sanitizer abort or whatever the library happens to do
+            # (the specification half of the same line still demands the refusal)
+            return True
+        return Prop.compare(self, a, b)
+
     def generate(self, seed, tier, scale=1):
         rnd = random.Random(seed * 104729 + 17)
         quick = tier == 'quick'
@@ -510,6 +531,11 @@ class C17(Prop):
                 ia = a[3:].split('|')[0].split()
                 if any(abs(frombits(int(y[2:], 16)) - frombits(int(x[2:], 16))) <= 2.3e-16 and n == '1'
                        for x, y, n in zip(st, en, ia)):
+                    return {'defect': 'point-request-snaps-to-next-coordinate', 'kind': 'slice'}
+            if a == 'ERR nix::IncompatibleDimensions' and b.startswith('OK') and ns == ne == rank:
+                st, en = secs[0].split(), secs[1].split()
+                if any(abs(frombits(int(y[2:], 16)) - frombits(int(x[2:], 16))) <= 2.3e-16 for x, y in zip(st, en)):
+                    # the same fallback path: the scalar overload refuses a unit the pair overload ignores
                     return {'defect': 'point-request-snaps-to-next-coordinate', 'kind': 'slice'}
             return {'kind': 'slice', 'impl': a.split(' ')[0], 'spec': b.split(' ')[0], 'case': case.lines[k]}
         if op == 'indata':
